@@ -70,6 +70,7 @@ namespace verif::e2 {
 
     // a harness may install its own site filter (used by e2/mpi.cpp: only mpi.* tm.* x.*)
     inline bool (*g_wanted)(char const*) = nullptr;
+    inline auto& g_filter = g_wanted;    // alias used by e2/life.cpp
     // per-harness extensions: extra site prefixes to record, and a record filter (true = drop the
     // record; used for high-frequency polling sites whose uninteresting values are stutter)
     inline bool (*g_wanted_extra)(char const*) = nullptr;
@@ -88,7 +89,6 @@ namespace verif::e2 {
         case 'q': return true;                                          // q.*
         case 'b': return s[1] == 'o';                                   // body.*
         case 'x': return true;                                          // x.* harness notes
-        case 'g': return s[1] == 'a';                                   // gac.* global activity count
         default: return g_wanted_extra != nullptr && g_wanted_extra(s);
         }
     }
